@@ -307,7 +307,7 @@ class MessageManager(ClientLike):
                 self.remove_module(module)
                 return False
 
-            for m in self.modules.values():
+            for m in list(self.modules.values()):
                 if m is module:
                     continue
 
@@ -815,7 +815,7 @@ class MessageManager(ClientLike):
         msg = cd.MDF_ACTIVE_CLIENTS()
         msg.timestamp = time.perf_counter()
 
-        for i, (sock, module) in enumerate(self.modules.items()):
+        for i, (sock, module) in enumerate(list(self.modules.items())):
             # if sock == self.listen_socket:
             #     continue
             msg.client_mod_id[i] = module.mod_id
